@@ -1,6 +1,7 @@
 package main
 
 import (
+	"fmt"
 	"go/constant"
 	"go/types"
 	"strconv"
@@ -321,6 +322,40 @@ func registerLib(e *Engine) {
 		c := Val{T: pt, S: s.define("lru", sInt, ite(ok, r, "0"))}
 		errv, _ := s.newErr("lru")
 		return []Val{c, {T: errorT, S: s.define("lruerr", sIface, ite(ok, "nilI", errv.S))}}
+	}
+	L["(*net/url.URL).String"] = func(s *State, site ssa.Instruction, args []Val) []Val {
+		s.used("(*url.URL).String(): a function of the URL object (URLs are not mutated after they are parsed); result is control-character free (escaped)")
+		r := s.freshStr("urlstr")
+		s.assume(eq(r.S, app("urlStr", args[0].S)))
+		s.assume(and(app("clean", r.S), app("noNL", r.S), app("noCTL", r.S)))
+		return []Val{r}
+	}
+	L["golang.org/x/exp/slices.Contains"] = func(s *State, site ssa.Instruction, args []Val) []Val {
+		s.used("slices.Contains(xs, v) == exists i :: xs[i] == v (pure)")
+		xs, v := args[0], args[1]
+		if xs.Sl == nil || kindOf(v.T) == kBad || len(flatten(v)) != 1 {
+			return []Val{s.freshVal(boolT, "contains")}
+		}
+		et := xs.T.Underlying().(*types.Slice).Elem()
+		k := fmt.Sprintf("k!%d", s.c.fresh)
+		s.c.fresh++
+		el := s.pureLoad(&Addr{Space: "elem", Ref: xs.Sl.Base, Idx: k, Elem: et, T: et})
+		r := s.c.freshConst("contains", sBool)
+		ex := fmt.Sprintf("(exists ((%s Int)) (and (<= %s %s) (< %s %s) (= %s %s)))", k, xs.Sl.Off, k, k, app("+", xs.Sl.Off, xs.Sl.Len), el.S, v.S)
+		// a statically known length is unrolled so that no quantifier is needed
+		if n, ok := litInt(xs.Sl.Len); ok && n <= 16 {
+			var alts []string
+			for i := int64(0); i < n; i++ {
+				e := s.pureLoad(&Addr{Space: "elem", Ref: xs.Sl.Base, Idx: addT(xs.Sl.Off, intLit(i)), Elem: et, T: et})
+				alts = append(alts, eq(e.S, v.S))
+			}
+			ex = or(alts...)
+		}
+		s.assume(eq(r, ex))
+		return []Val{{T: boolT, S: r}}
+	}
+	for _, n := range []string{"(*sync.WaitGroup).Add", "(*sync.WaitGroup).Done", "(*sync.WaitGroup).Wait"} {
+		L[n] = func(s *State, site ssa.Instruction, args []Val) []Val { return nil }
 	}
 	registerStrings(e)
 }
